@@ -35,6 +35,8 @@ type fwdCfg struct {
 	Direct         []string      `json:"direct"`
 	MITMDomains    []string      `json:"mitmDomains"`
 	TimeFrame      string        `json:"timeFrame"` // "" | in | out
+	// Frames: the entries themselves (TimeFrame.tla schedules); used instead of TimeFrame when set
+	Frames []ruleset.TimeFrameEntry `json:"-"`
 	Upstream       string        `json:"upstream"`  // proxy URL
 	PAC            string        `json:"pac"`       // script
 	Creds          []string      `json:"creds"`     // user:pass@host:port
@@ -223,6 +225,9 @@ func startFwd(c fwdCfg) (*fwd, error) {
 		cfg.AllowTimeFrame = todayFrames(true)
 	case "out":
 		cfg.AllowTimeFrame = todayFrames(false)
+	}
+	if c.Frames != nil {
+		cfg.AllowTimeFrame = c.Frames
 	}
 	if c.IdleTimeout > 0 {
 		cfg.IdleTimeout = c.IdleTimeout
